@@ -15,7 +15,7 @@ RULE = ("1-4 real base.SlotChain objects per case assembled by Add*Slot from 0-9
         "ctx.RuleCheckResult, slot-owned reused result) with block types 0-255; prepare and rule slots may register exit handlers "
         "(ok / error / panic); rule results are produced by every public constructor / in-place reset family (see BLOCK_STYLES, PASSING in the module); "
         "any slot may record ctx.SetError / ctx.SetPair without panicking (+e/+k/+ek, read back with `ctx <e> err|pair`); stat slots may panic in OnEntryPassed / OnEntryBlocked / OnCompleted; then 3-25 api.Entry calls "
-        "with overlapping lifetimes, caller-registered exit handlers, exits in shuffled order incl. double exits and `exit2` (two Exit calls "
+        "(15 % of them without WithSlotChain, i.e. on api's global chain `*` carrying one recording slot of each kind) with overlapping lifetimes, caller-registered exit handlers, exits in shuffled order incl. double exits and `exit2` (two Exit calls "
         "overlapping deterministically), the virtual clock moved to 0 / 1 / huge / backwards in 40 % of cases, slots added to "
         "live chains, every kept *BlockError re-read after later traffic; slices: panic-free, block-heavy, panic-heavy, "
         "own-result aliasing hazard. non-trivial = a block error was re-read after at least one later entry reused a pooled context; "
@@ -164,7 +164,9 @@ def gen_case(rng, cid):
         if r < 0.50 or not live and r < 0.8:
             eid += 1
             e = f"e{eid}"
-            ops.append(f"entry {e} {rng.choice(chains)[0]}")
+            # 15 %: api.Entry WITHOUT WithSlotChain (chain `*` = api's global chain with the harness's recording slots, id 0),
+            # interleaved with entries on the custom chains: a chain must not leak through the pooled EntryOptions
+            ops.append(f"entry {e} {'*' if rng.random() < 0.15 else rng.choice(chains)[0]}")
             ops.append("log")
             if rng.random() < 0.7:
                 ops.append(f"ident {e}")
@@ -225,7 +227,7 @@ def fix_sequence(ops, results):
 def verdicts(ops):
     """python mirror of the property's verdict (stable sort, first non-passing rule slot, panic => admitted); only used to
     keep generated op sequences well-formed, never to judge."""
-    chains, res = {}, {}
+    chains, res = {"*": [("p", 0, "ok"), ("r", 0, "nil"), ("s", 0, "ok")]}, {}
 
     def parse(tok):
         f = tok.split(":")
@@ -251,10 +253,55 @@ def verdicts(ops):
     return res
 
 
+PASSING_SET = ("pass", "pass1", "nil", "wait", "wait0", "wait1")
+
+
+def keep_global_out_of_hazard(ops):
+    """`entry <e> *` runs api's real global chain, whose built-in rule slots hand back `ctx.RuleCheckResult` untouched. While a
+    slot-owned shared result object is still marked blocked (some own-style slot exists and an entry admitted by a panic after a
+    block has not exited yet — the own-result hazard, notes/C16.md observations 1 and 5) a recycled context can carry that
+    object and the built-in flow slot then *blocks* the unrelated global request with the stale error. The model does not
+    contain the built-in slots, so such global entries are redirected to a custom chain (the hazard itself stays covered
+    through the custom chains)."""
+    chains, has_own, bp_live, out = {}, False, set(), []
+
+    def parse(tok):
+        f = tok.split(":")
+        return f[0], int(f[2]), f[3].split("+")[0]
+
+    first = None
+    for o in ops:
+        t = o.split()
+        if t[0] == "chain":
+            chains[t[1]] = [parse(x) for x in t[2:]]
+            first = first or t[1]
+            has_own |= any(k == "r" and b.startswith("bo") for k, _, b in chains[t[1]])
+        elif t[0] == "add":
+            x = parse(t[2])
+            chains[t[1]].append(x)
+            has_own |= x[0] == "r" and x[2].startswith("bo")
+        elif t[0] == "entry":
+            if t[2] == "*" and has_own and bp_live:
+                t[2] = first
+                o = " ".join(t)
+            if t[2] != "*":
+                sl = chains[t[2]]
+                rs = sorted([x for x in sl if x[0] == "r"], key=lambda x: x[1])
+                stop = next((b for _, _, b in rs if b not in PASSING_SET), None)
+                if (not any(k == "p" and b == "panic" for k, _, b in sl) and stop is not None and stop != "panic"
+                        and any(k == "s" and b == "pb" for k, _, b in sl)):
+                    bp_live.add(t[1])
+        elif t[0] in ("exit", "exit2"):
+            bp_live.discard(t[1])
+        out.append(o)
+    return out
+
+
 def gen(ctx, n):
     out = []
     for i in range(n):
         c = gen_case(ctx.rng, f"g{ctx.seed}-{i}")
+        c.ops = keep_global_out_of_hazard(c.ops)
         c.ops = fix_sequence(c.ops, verdicts(c.ops))
         out.append(c)
     return out
